@@ -126,5 +126,8 @@ class EncodingDB:
                         cid2unicode[cid] = name2unicode(cast(str, x.name))
                     except (KeyError, ValueError) as e:
                         log.debug(str(e))
+                        # The code now selects this glyph, not the one of
+                        # the base encoding.
+                        cid2unicode.pop(cid, None)
                     cid += 1
         return cid2unicode
